@@ -24,7 +24,7 @@ RULE = (
     "pair; distinct = (operation, parameters, input hash, seed); non-trivial = the operation returned in both runs"
 )
 ASSUMPTIONS = ["thorough tier repeats the CLI steps as real subprocesses under two PYTHONHASHSEED values", "line-granular injection uses sys.monitoring LINE events on code objects whose file lies under the tree under test"]
-REQUIRED = {"pairs_compared": {"quick": 400, "thorough": 8000}, "global_state_checks": {"quick": 400, "thorough": 8000}, "injected_global_draws": {"quick": 2000, "thorough": 50000}, "training_pairs": {"quick": 16, "thorough": 300}, "cli_pairs": {"quick": 24, "thorough": 400}, "cli_subprocess_pairs": {"quick": 2, "thorough": 16}}
+REQUIRED = {"pairs_compared": {"quick": 400, "thorough": 8000}, "global_state_checks": {"quick": 400, "thorough": 8000}, "injected_global_draws": {"quick": 2000, "thorough": 50000}, "training_pairs": {"quick": 16, "thorough": 300}, "training_pairs_same_model": {"quick": 16, "thorough": 300}, "cli_pairs": {"quick": 24, "thorough": 400}, "cli_subprocess_pairs": {"quick": 2, "thorough": 16}}
 N_OPS = {"quick": 640, "thorough": 12800}
 TOOL = 4
 
@@ -232,6 +232,18 @@ def run_shard(rec, tier, seed, shard, nshards):
 
             w = {"model": mname, "seed": sd, "n_chains": nch, "chain_index": ch, "rows": int(screen.size)}
             pair(rec, "train/" + mname, "seed=%d" % sd, train, theta_fp, w, inj_every=97, case_key=("train", mname, sd, nch, ch, kit.array_hash(screen.observations)), count_as="training_pairs")
+
+            # the same call repeated on the SAME model object: sampling.sample resets the model first, so what the
+            # first call left behind is not an input of the second
+            shared = cls(experiment_space=ExperimentSpace.from_screen(screen), n_embedding_dimensions=D_)
+            shared.add_observations(screen.subset_observed())
+            nb = int(rng.integers(0, 3))
+
+            def train_again(m=shared, sd=sd, nch=nch, ch=ch, nb=nb):
+                return sampling.sample(m, ThetaHolder(n_thetas=3), seed=sd, n_chains=nch, chain_index=ch, n_burnin=nb, thin=2)
+
+            w2 = dict(w, n_burnin=nb, same_model_object=True)
+            pair(rec, "train-same-model/" + mname, "seed=%d" % sd, train_again, theta_fp, w2, inj_every=97, case_key=("train-again", mname, sd, nch, ch, nb, kit.array_hash(screen.observations)), count_as="training_pairs_same_model")
 
     # ------------------------------------------------ CLI mains with --seed, in-process
     cli_pairs(rec, tier, rng)
